@@ -1065,6 +1065,14 @@ class SymStr:
     def startswith(self, p):
         return self.b.startswith(p.encode() if isinstance(p, builtins.str) else p.b)
 
+    def lower(self):
+        return SymStr(SymBytes([(chr(it).lower().encode()[0] if isinstance(it, builtins.int) else
+                                 SymInt(z3.If(z3.And(bv(it) >= 65, bv(it) <= 90), bv(it) + 32, bv(it)))) for it in self.b.items]))
+
+    def upper(self):
+        return SymStr(SymBytes([(chr(it).upper().encode()[0] if isinstance(it, builtins.int) else
+                                 SymInt(z3.If(z3.And(bv(it) >= 97, bv(it) <= 122), bv(it) - 32, bv(it)))) for it in self.b.items]))
+
     def removeprefix(self, p):
         if len(p) <= len(self.b) and builtins.bool(self.startswith(p)):
             return SymStr(SymBytes(list(self.b.items[len(p):])))
